@@ -58,6 +58,8 @@ for w in WINS:
     v = VAL[w] = []
     for op in ("sum", "count", "mean", "var", "std"):
         v.append(add(w, op, lambda x, op=op: getattr(x.x, op)()))
+    v.append(add(w, "var[ddof=0]", lambda x: x.x.var(ddof=0)))
+    v.append(add(w, "std[ddof=0]", lambda x: x.x.std(ddof=0)))
     v.append(add(w, "size", lambda x: x.x.size))
     v.append(add(w, "value_counts", lambda x: x.x.value_counts(), zero_ok=True, rank=0))
     v.append(add(w, "full", lambda x: x.full(), lambda view: view, cols=XY))
@@ -67,6 +69,7 @@ for w in WINS:
     v.append(add(w, "sum[x*y+1]", lambda x: (x.x * x.y + 1).sum(), cols=XY))      # arithmetic inside the window
     VCK[w] = [add(w, "value_counts[k]", lambda x: x.k.value_counts(), zero_ok=True, rank=1)]
     GCOL[w] = [add(w, "groupby(col).%s" % op, lambda x, op=op: getattr(x.groupby("k").x, op)()) for op in GOPS]
+    GCOL[w].append(add(w, "groupby(col).var[ddof=0]", lambda x: x.groupby("k").x.var(ddof=0)))
     GSER[w] = [add(w, "groupby(series).%s" % op, lambda x, op=op: getattr(x.groupby(x.k).x, op)()) for op in GOPS]
     # grouper = a streaming series that is not a Window (zip of root and grouper streams)
     key = "%s.groupby(stream).sum" % wlabel(w)
